@@ -1,10 +1,12 @@
 (* C17 — restraint diagnostics name exactly the atoms that do not exist.
    Statements only (copied from Proofs/RestrProofs.v by harness/mkprops.py).  Model: Model/Restr.v
-   (_assign_atoms_to_restraints, does_atom_exist, Residue.residue_number, the NAME_RESIDUE index, as repaired);
-   spec: Spec/RestrSpec.v.  Where a restraint addresses several residues and the atom exists in some of them, the
-   property text can be read per residue or for the whole set; the theorems state what both readings demand:
-   silence when the atom exists in every addressed residue, a message when it exists in none, only absent atoms in
-   messages, never wildcards / range operators.  A keyword suffix _* is read by the library as residue 0. *)
+   (_assign_atoms_to_restraints, does_atom_exist incl. the NAME_* branch, Residue.residue_number, the NAME_RESIDUE
+   index, as repaired); spec: Spec/RestrSpec.v.  Where a restraint addresses several residues and the atom exists in
+   some of them, the property text can be read per residue or for the whole set.  C17_reported_exactly is the complete
+   characterisation in the per-residue reading (the one the library follows: a message names NAME_n exactly when an item
+   asks for NAME in residue n and no such atom exists); the other theorems state what both readings demand: silence when
+   the atom exists in every addressed residue, a message when it exists in none, only absent atoms in messages, never
+   wildcards / range operators.  A keyword suffix _* is read by the library as residue 0. *)
 From SX Require Import Base.Str Model.Restr Spec.RestrSpec Proofs.RestrProofs.
 
 Theorem C17_never_reports_wildcards fi s : report_atom fi s ARange = [] /\ forall e, report_atom fi s (AElem e) = [].
@@ -30,9 +32,22 @@ Theorem C17_reported_bare_absent fi s atoms name :
 Proof. exact (reported_bare_absent fi s atoms name). Qed.
 Print Assumptions C17_reported_bare_absent.
 
+Theorem C17_reported_exactly fi s atoms name n : suffix_ok s ->
+  (exists o, res_of o = n /\ In (name, o) (reported fi s atoms)) <->
+  (exists a, In a atoms /\ In (name, n) (asked fi s a) /\ has_atom fi name n = false).
+Proof. exact (reported_exactly fi s atoms name n). Qed.
+Print Assumptions C17_reported_exactly.
+
 Theorem C17_restr_example :
   let fi := {| fi_atoms := [(lit "C1", 0%Z); (lit "C1", 1%Z); (lit "C3", 1%Z); (lit "C1", 2%Z)]; fi_residues := [(1%Z, lit "TOL"); (2%Z, lit "TOL")] |} in
   reported fi (SClass (lit "TOL")) [AName (lit "C1") None; ARange; AName (lit "C3") None; AElem (lit "C")] = [(lit "C3", Some 2%Z)]
   /\ reported fi SNone [AName (lit "C1") None; AName (lit "C9") None] = [(lit "C9", None)].
 Proof. exact (restr_example ). Qed.
 Print Assumptions C17_restr_example.
+
+Theorem C17_star_example :
+  let fi := {| fi_atoms := [(lit "C2", 1%Z); (lit "N1", 1%Z); (lit "N1", 2%Z); (lit "C2", 3%Z); (lit "N1", 3%Z)];
+               fi_residues := [(1%Z, lit "TOL"); (2%Z, lit "TOL"); (3%Z, lit "")] |} in
+  reported fi SNone [AStar (lit "N1"); AStar (lit "C2")] = [(lit "C2", Some 2%Z)].
+Proof. exact (star_example ). Qed.
+Print Assumptions C17_star_example.
